@@ -242,7 +242,8 @@ class GaussianKDE(DensityEstimator):
         x = linspace(self.lwr_limit, self.upr_limit, N)
         p = self(x)
 
-        mu = simpson(p * x, x=x)
+        # integrate about the mode so the result is unaffected by the location of the data
+        mu = self.mode + simpson(p * (x - self.mode), x=x)
         dx = x - mu
         I = p * dx**2
         var = simpson(I, x=x)
